@@ -58,12 +58,12 @@ const (
 	aKeepIn
 	aCloseOut
 	aCloseIn
-	aWait     // arg: 0 1s, 1 3s, 2 next hold deadline - 10ms, 3 next hold deadline + 10ms, 4 250s, 5 12s
-	aOpenBoth // valid OPEN on both connections without letting the server run in between; arg: 0 out first, 1 in first
-	aUpdate   // UPDATE on the established connection (resets its hold timer)
-	aDisable  // DisablePeer (administrative shutdown)
-	aEnable   // EnablePeer
-	aKeepOpen // KEEPALIVE on one connection and a valid OPEN on the other at once; arg bit 0: the KEEPALIVE goes out on the outbound connection, bit 1: the OPEN is written first
+	aWait        // arg: 0 1s, 1 3s, 2 next hold deadline - 10ms, 3 next hold deadline + 10ms, 4 250s, 5 12s
+	aOpenBoth    // valid OPEN on both connections without letting the server run in between; arg: 0 out first, 1 in first
+	aUpdate      // UPDATE on the established connection (resets its hold timer)
+	aDisable     // DisablePeer (administrative shutdown)
+	aEnable      // EnablePeer
+	aKeepOpen    // KEEPALIVE on one connection and a valid OPEN on the other at once; arg bit 0: the KEEPALIVE goes out on the outbound connection, bit 1: the OPEN is written first
 	aDisableOpen // a valid OPEN on the outbound connection, DisablePeer arg*100 microseconds later (the OPEN handling of the outgoing connection manager races the shutdown)
 	numA07
 )
